@@ -910,6 +910,16 @@ def _own_generator(func, e):
     return False
 
 
+def _assigned_to_local(func, call):
+    """The call's value is bound to a plain local name (`x = C.compute(...)`), not stored
+    into an attribute of an object."""
+    for n in walk_no_nested(func.node):
+        if isinstance(n, ast.Assign) and n.value is call and len(n.targets) == 1 and \
+                isinstance(n.targets[0], ast.Name):
+            return True
+    return False
+
+
 def rule_F3(ctx, rid='F3'):
     ctx.rule(rid, 'rng plumbing: every construction / restore / reset call whose callee takes an '
              'rng passes the caller\'s own generator (rng, self.rng, <object>.rng), so that one '
@@ -940,7 +950,8 @@ def rule_F3(ctx, rid='F3'):
                         ctx.ob(rid, key + ':keeps-generator', True, f.where(n),
                                'reset() without argument keeps the current generator')
                         continue
-                    if (f.qualname, callee.qualname) in F3_EXCEPTIONS:
+                    if (f.qualname, callee.qualname) in F3_EXCEPTIONS and \
+                            _assigned_to_local(f, n):
                         ctx.ob(rid, key + ':placeholder', True, f.where(n),
                                'table exception: ' + F3_EXCEPTIONS[(f.qualname,
                                                                     callee.qualname)][:90])
